@@ -14,6 +14,19 @@ func init() {
 	props["C02"] = lib("seeded histories on propagation-heavy layouts (edge, four-level, ratio equal to the finer point count) with explicit-archive writes; after every write the raw state of every coarser level is compared with the model's propagation of the observed finer state. Non-trivial: an aggregate was stored or skipped (by xff or zero known values) at some level; distinct = distinct case hash")
 	props["C03"] = lib("seeded histories of single updates with ages across every retention boundary and of batches mixing in-range, too-old, boundary and duplicate points routed to the best or a named archive; raw slots of all archives before/after each call are compared with the routing model. Non-trivial: boundary-age update, batch mixing stale and fresh points, batch spanning 3 archives; distinct = distinct case hash")
 	props["C04"] = lib("each run is one layout, one clock value and 8-40 queries (boundary x boundary ages around now and every retention edge, random pairs, degenerate, sub-step, from>until, from=0; every archive id in [-3,n+2] and best), each issued against a never-written, a partially written and a fully written file of the layout and compared with the shape model. Non-trivial: a degenerate window on a never-written archive, a window clamped at both ends, or best selecting a coarser archive; distinct = distinct case hash")
+	cli := func(rule string) propCfg {
+		c := lib(rule)
+		c.quick = tierCfg{runs: 2500, budget: 45}
+		c.thorough = tierCfg{runs: 150000, budget: 1200}
+		c.technique = "deterministic simulation: CLI command executed in-process on a simulated clock under the seeded scheduler, post-conditions checked by library-level reads at the command's clock value"
+		return c
+	}
+	props["C08"] = cli("each run builds a world (source and destination files with independent sparse contents, NaN holes, coarser archives that are not the aggregate of the finer ones, destinations equal in coarser but not finer slots, fresh/absent destinations, equal or unequal layouts), executes copy (struct or Parse(args); windows default/narrow/past/beyond retention/degenerate; archive all/each; both NaN modes; single file or glob; optional clock tick inside the command), repeats it and runs diff. Non-trivial: values inside the selected window were compared, a destination was created, a layout mismatch was refused; distinct = distinct case hash")
+	props["C09"] = cli("each run builds a pair of files (identical copies, one-ulp / signed-zero / dropped-point deviations, independent contents, a missing side, unequal layouts), executes diff (windows, selections, single/glob), parses the listing back and compares verdict and listing with the model difference set; then the swapped and the self diff. Non-trivial: differences listed, identical files, missing side, layout mismatch; distinct = distinct case hash")
+	props["C10"] = cli("each run builds 1-3 items of 1-12 files with identical layouts and arbitrary NaN holes (dyadic values), executes sum (item/file patterns incl. patterns matching nothing, one file of another layout, windows, selections, optional clock tick) and compares the parsed output with the slot-wise NaN-skipping sum. Non-trivial: a sum over several files or a single file was compared, an empty match or layout mismatch was classified; distinct = distinct case hash")
+	props["C11"] = cli("C10 worlds plus destinations absent / never written / independent / partially equal; sum-copy, then library reads of the destination against the model sum, then sum-diff (must be clean), then a deviation written through the library and sum-diff again (must list exactly the deviating slots). Non-trivial: a sum was stored and compared or a deviation was detected; distinct = distinct case hash")
+	props["C18"] = cli("each run builds one file with values needing 17 digits, infinities, NaN, signed zero and holes, executes view or view-raw (selections, windows, header on/off, sort on/off) and compares the parsed output with library fetches / raw slots bitwise; view points are looked up in view-raw. Non-trivial: lines compared; distinct = distinct case hash")
+	props["C20"] = cli("each run executes generate for a seeded layout, maximum, fill on/off at an instant aligned or unaligned to each archive's step (optionally onto an existing path) and checks header, emptiness, completeness, value range and that every coarser slot fully covered by retained finer slots equals their sum. Non-trivial: a filled file or an existing destination was checked; distinct = distinct case hash")
 	c13 := lib("each run is 2-5 actors (writers doing read-modify-write of a generation stamp over every slot of a multi-page archive, readers, abandoners, openers that fail after the descriptor was obtained) performing up to 14 sessions on one file under the seeded scheduler with statement-level preemption; invariants after every event, final counter, lock-lifetime probes and a porcupine linearizability check of the session history. Non-trivial: lock contention actually occurred (an opener parked in the lock hook while a handle was held) or a failed open was probed; distinct = distinct case hash; distinct interleavings = distinct context-switch signatures")
 	c13.quick = tierCfg{runs: 3000, budget: 45}
 	c13.thorough = tierCfg{runs: 300000, budget: 1200}
